@@ -556,12 +556,26 @@ func hIter(st *State, a []string) string {
 	default:
 		return "err"
 	}
+	// after the first error exactly two more calls are made (an iterator must not hand out a
+	// wrong component after it reported missing data); the run also ends at the third end report
+	post := -1
+	calls := uint64(0)
 	for steps := 0; steps < 100000; steps++ {
+		if post == 0 {
+			return sb.String()
+		}
+		if post > 0 {
+			post--
+		}
+		calls++
 		if bit != nil {
 			b, ok, err := bit.Next()
 			if err != nil {
 				emit("E")
-				return sb.String()
+				if post < 0 {
+					post = 2
+				}
+				continue
 			}
 			if !ok {
 				emit(".")
@@ -584,7 +598,10 @@ func hIter(st *State, a []string) string {
 		v, ok, err := el.Next()
 		if err != nil {
 			emit("E")
-			return sb.String()
+			if post < 0 {
+				post = 2
+			}
+			continue
 		}
 		if !ok {
 			emit(".")
@@ -598,8 +615,7 @@ func hIter(st *State, a []string) string {
 			emit("resumed")
 		}
 		// each element is read at the step it is produced (the read-only iterator re-targets one view)
-		idx := uint64(strings.Count(sb.String(), "|"))
-		et := elemTy(hd.t, idx)
+		et := elemTy(hd.t, calls-1)
 		if et == nil {
 			emit("|?")
 			continue
